@@ -220,8 +220,8 @@ def feats_of(m):
 
 def plan(tier, seed):
     n = 16
-    per = 4000 if tier == 'quick' else 100000
-    return [dict(part=i, seed=seed * 100 + i, n=per, tier=tier) for i in range(n)] + [dict(kind='wire', seed=seed, n=40 if tier == 'quick' else 800)]
+    per = 16000 if tier == 'quick' else 100000
+    return [dict(part=i, seed=seed * 100 + i, n=per, tier=tier) for i in range(n)] + [dict(kind='wire', seed=seed, n=120 if tier == 'quick' else 800)]
 
 
 def run_shard(sh):
